@@ -30,7 +30,7 @@ ASSUMPTIONS = [
     "terminating strategies WARN_AND_END / WARN_AND_EXIT and failing listeners are out of scope (statement)",
     "a failing step() may return normally or raise DSOLError; any other exception class is a violation",
 ]
-MY_CHECKS = {"trace-mismatch", "state-after-command", "clock-after-command",
+MY_CHECKS = {"resume-without-progress", "trace-mismatch", "state-after-command", "clock-after-command",
              "command-outcome", "command-raised-non-dsol-error", "stream-grammar",
              "no-quiescence", "final-clock", "harness", "run-thread-liveness",
              "clock-backwards"}
@@ -104,12 +104,18 @@ def generate(seed, tier, idx=0):
     if prog["clock"] == "int":
         prog["rep"] = [int(x) for x in prog["rep"]]
     ids = executed_ids(prog)
+    if ids and rng.random() < 0.3:
+        plan = [(rng.choice(ids), rng.choice(POS), rng.choice(program.EXCS))
+                for _ in range(rng.randint(1, 2))]
+        return polling_case(rng, seed, prog, list({p[0]: p for p in plan}.values()))
     if len(ids) <= 12:
         return {"program": prog, "enumerate": True, "seed": seed}
     plan = [(rng.choice(ids), rng.choice(POS), rng.choice(program.EXCS))
             for _ in range(rng.randint(1, 3))]
     plan = list({p[0]: p for p in plan}.values())
     c = build_case(prog, plan, rng.choice([1, 2, 3]), rng.choice(MODES), rng.randint(0, 5))
+    if rng.random() < 0.35:
+        return polling_case(rng, seed, prog, plan)
     if rng.random() < 0.3:
         c["sched"] = {"kind": rng.choice(["pct", "site"]), "seed": seed, "p": 0.01,
                       "q": 0.15, "d": rng.choice([1, 2]),
@@ -117,7 +123,75 @@ def generate(seed, tier, idx=0):
     return c
 
 
+def polling_case(rng, seed, prog, plan):
+    """warn-and-pause under a real caller idiom: start(), wait until the
+    simulator reports STOPPED/ENDED, start() again at once - with the run thread
+    pre-empted at seeded points; resuming must execute exactly the rest."""
+    p = with_faults(prog, plan)
+    n = len(plan) + 2
+    cmds = [["initialize"]]
+    for _ in range(n):
+        cmds += [["start"], ["poll_stopped"]]
+    cmds += [["settle"], ["drain", 6], ["settle"]]
+    return {"program": p, "strategy": 3, "mode": "polling", "plan": [list(x) for x in plan],
+            "commands": cmds,
+            "sched": {"kind": rng.choice(["pct", "site", "site"]), "seed": seed,
+                      "p": rng.choice([0.02, 0.005]), "q": rng.choice([0.3, 0.15]),
+                      "d": rng.choice([1, 2, 3]), "step_cost_us": rng.choice([0, 1, 10])}}
+
+
+def run_polling(case):
+    r = simrun.Runner(case).run()
+    findings = []
+    H = r.hist.H
+    if r.aborted:
+        findings.append(("no-quiescence", "run aborted: %s" % r.aborted))
+    else:
+        ref = devscommon.make_ref(case)
+        ref.initialize()
+        guard = 0
+        while ref.run_state != "ENDED" and guard < 100 and ref.can_start():
+            ref.run(ref.end, True)
+            guard += 1
+        got = devscommon.executed(H)
+        exp = devscommon.ref_trace(ref, r)
+        d = devscommon.describe_trace_diff(got, exp)
+        if d is not None:
+            findings.append(("trace-mismatch", "warn-and-pause with a polling caller "
+                             "(start, wait for STOPPED, start ...): " + d[1]))
+        elif r.final[:2] != ("ENDED", "ENDED"):
+            findings.append(("state-after-command", "after resuming until the end the "
+                             "simulator reports %s" % (r.final[:3],)))
+        cmds = devscommon.split_history(H)
+        # every accepted start() must make progress while events remain
+        starts = [c for c in cmds if c["name"] == "start" and not c["callback"]]
+        total = len(exp)
+        for k, c in enumerate(starts):
+            if c.get("outcome") != "ok" or findings:
+                continue
+            lo = c["invoke_pos"]
+            hi = starts[k + 1]["invoke_pos"] if k + 1 < len(starts) else len(H)
+            done_before = len(devscommon.executed(H, lo))
+            done_after = len(devscommon.executed(H, hi))
+            if done_before < total and done_after == done_before:
+                findings.append(("resume-without-progress",
+                                 "start #%d was accepted after a pause with %d of %d events "
+                                 "still to run, returned normally, and nothing was executed "
+                                 "before the caller's next command"
+                                 % (c["index"], total - done_before, total)))
+        for c in cmds:
+            o = c.get("outcome") or ""
+            if o.startswith("exc:"):
+                findings.append(("command-raised-non-dsol-error",
+                                 "command #%d %s raised %s" % (c["index"], c["name"], o)))
+                break
+    fired = r.faults.get("handler_raise", 0)
+    return r, findings, fired, fired > 0 and r.det.n_switch > 0
+
+
 def run_single(case):
+    if case.get("mode") == "polling":
+        return run_polling(case)
     r = simrun.Runner(case).run()
     findings, info = devscommon.evaluate_sequential(case, r)
     H = r.hist.H
